@@ -115,6 +115,52 @@ pub fn json_depth(v: &Value) -> usize {
     }
 }
 
+/// one nesting step of the given form
+fn nest_form(form: usize, r: Value) -> Value {
+    match form {
+        0 => op("!", vec![r]),
+        1 => op("!!", vec![r]),
+        2 => op("cat", vec![s("a"), r]),
+        3 => op("merge", vec![r, int(1)]),
+        4 => op("if", vec![json!(true), r, int(0)]),
+        5 => op("and", vec![int(1), r]),
+        6 => op("or", vec![int(0), r]),
+        7 => op("var", vec![s("nope"), r]),
+        8 => op("map", vec![Value::Array(vec![r]), var("")]),
+        9 => op("+", vec![int(1), r]),
+        10 => op("some", vec![Value::Array(vec![r]), json!(true)]),
+        11 => op("reduce", vec![Value::Array(vec![int(1)]), var("current"), r]),
+        12 => op("or", vec![r]),
+        13 => op("and", vec![r]),
+        14 => op("if", vec![r]),
+        15 => op("if", vec![json!(false), int(0), r]),
+        16 => op("filter", vec![Value::Array(vec![int(1)]), r]),
+        17 => op("all", vec![Value::Array(vec![int(1)]), r]),
+        18 => op("none", vec![Value::Array(vec![r]), json!(false)]),
+        19 => op("-", vec![r]),
+        20 => op("max", vec![r]),
+        21 => op("?:", vec![r, r_clone_marker(), int(0)]),
+        _ => op("log", vec![r]),
+    }
+}
+fn r_clone_marker() -> Value {
+    int(1)
+}
+pub const NEST_FORMS: usize = 23;
+
+/// a chain of one form, as deep as the text interfaces allow
+pub fn uniform_chain(form: usize, levels: usize, leaf: Value) -> Value {
+    let mut r = leaf;
+    for _ in 0..levels {
+        let next = nest_form(form, r.clone());
+        if json_depth(&next) > 126 {
+            break;
+        }
+        r = next;
+    }
+    r
+}
+
 fn nest(rng: &mut Rng, depth: usize, leaf: Value) -> Value {
     let mut r = leaf;
     for _ in 0..depth {
@@ -200,6 +246,23 @@ pub fn gen_c01(rng: &mut Rng, count: usize, thorough: bool) -> Vec<Case> {
         for _ in 0..(if thorough { 8 } else { 3 }) {
             let leaf = rand_rule(rng, 1);
             out.push(apply("deep", nest(rng, depth, leaf), rand_data(rng)));
+        }
+    }
+    // every nesting form, chained with itself as deep as 128 JSON levels allow (exponential
+    // re-evaluation or per-level stack growth shows up here as a timeout or an abort)
+    for form in 0..NEST_FORMS {
+        for leaf in [var("a"), json!(0), json!({"-": ["abc", 1]})] {
+            out.push(apply("deep-uniform", uniform_chain(form, 70, leaf), json!({"a": 7})));
+        }
+    }
+    // long non-ASCII strings in failing and succeeding positions (error texts, cat, substr)
+    for t in ["\u{20ac}", "\u{e9}", "\u{65e5}", "\u{1f600}", "a"] {
+        for n in [85usize, 100, 127, 128, 129, 300] {
+            let long: String = std::iter::repeat(t).take(n).collect();
+            out.push(apply("long-string", op("+", vec![Value::String(long.clone())]), Value::Null));
+            out.push(apply("long-string", op("*", vec![var("x"), int(2)]), json!({"x": format!("a{}", long)})));
+            out.push(apply("long-string", op("substr", vec![Value::String(long.clone()), int(-3)]), Value::Null));
+            out.push(apply("long-string", op("var", vec![json!([Value::String(long.clone())])]), Value::Null));
         }
     }
     // helpers
@@ -308,14 +371,40 @@ pub fn gen_c02(rng: &mut Rng, count: usize, _thorough: bool) -> Vec<Case> {
         };
         out.push(apply(&format!("dispatch:{}", name), op(name, args), json!({"a": 1})));
     }
+    // a supported key is always dispatched: with a wrong operand count it is an error, never a literal
+    for name in all_ops() {
+        for n in 0..=4usize {
+            out.push(apply(&format!("dispatch-count:{}", name), op(name, benign_args(name, n, rng)), json!({"a": 1, "b": [1, 2]})));
+        }
+        out.push(apply(&format!("dispatch-bare:{}", name), op1(name, s("abc")), json!({"a": 1})));
+    }
     while out.len() < count {
         let v = literal_pool(rng);
         if is_operation(&v) {
             continue;
         }
-        if rng.chance(1, 5) {
-            // literal nested as an operand: must come through unchanged
-            out.push(apply("literal-operand", op("merge", vec![Value::Array(vec![v])]), rand_data(rng)));
+        if rng.chance(1, 3) {
+            // a literal array (holding operation-shaped members) as an operand of any operator:
+            // nothing inside it is evaluated
+            let lit = Value::Array(vec![v.clone(), var("a"), json!({"+": [1, 2]}), json!({"==": [1]})]);
+            let d = json!({"a": 1, "xs": [1, {"var": "a"}]});
+            let r = match rng.below(14) {
+                0 => op("merge", vec![lit]),
+                1 => op("in", vec![var("a"), lit]),
+                2 => op("in", vec![int(3), lit]),
+                3 => op("cat", vec![lit]),
+                4 => op("==", vec![lit.clone(), lit]),
+                5 => op("map", vec![lit, var("")]),
+                6 => op("filter", vec![lit, json!(true)]),
+                7 => op("reduce", vec![lit, op("merge", vec![var("accumulator"), var("current")]), json!([])]),
+                8 => op("if", vec![json!(true), lit]),
+                9 => op("or", vec![lit]),
+                10 => op("and", vec![int(1), lit]),
+                11 => op("var", vec![s("nope"), lit]),
+                12 => op("max", vec![Value::Array(vec![int(2)]), int(1)]),
+                _ => op("!!", vec![Value::Array(vec![lit])]),
+            };
+            out.push(apply("literal-operand", r, d));
         } else {
             out.push(apply("literal", v, rand_data(rng)));
         }
@@ -406,7 +495,7 @@ fn c04_rule(rng: &mut Rng) -> Value {
     let x = || var(["x", "y", "dflt"][0]);
     let _ = x;
     let pick_ref = |rng: &mut Rng| var(*rng.pick(&["x", "y", "dflt", "xs.0", "xs"]));
-    match rng.below(16) {
+    match rng.below(28) {
         0 => op("var", vec![s("nope"), pick_ref(rng)]),
         1 => op("var", vec![s("n"), pick_ref(rng)]),
         2 => op("all", vec![var("xs"), op("!!", vec![var("")])]),
@@ -422,6 +511,18 @@ fn c04_rule(rng: &mut Rng) -> Value {
         12 => op("all", vec![op("merge", vec![var("xs")]), json!(true)]),
         13 => op("some", vec![op("map", vec![var("xs"), var("")]), var("secret")]),
         14 => op("var", vec![op("var", vec![s("nope"), s("secret")])]),
+        15 => op("missing_some", vec![int(rng.range(0, 2)), var("xs")]),
+        16 => op("missing", vec![var("xs")]),
+        17 => op1("missing", op("merge", vec![var("xs"), s("secret")])),
+        18 => op("missing_some", vec![int(1), op("merge", vec![pick_ref(rng), s("n")])]),
+        19 => op("var", vec![pick_ref(rng)]),
+        20 => op("cat", vec![pick_ref(rng), var("xs")]),
+        21 => op("==", vec![pick_ref(rng), pick_ref(rng)]),
+        22 => op("max", vec![pick_ref(rng)]),
+        23 => op("substr", vec![pick_ref(rng), int(0)]),
+        24 => op("log", vec![pick_ref(rng)]),
+        25 => op("in", vec![var("secret"), var("xs")]),
+        26 => op("in", vec![pick_ref(rng), op("merge", vec![var("xs")])]),
         _ => op("in", vec![pick_ref(rng), var("xs")]),
     }
 }
@@ -649,6 +750,21 @@ fn gen_pairs(rng: &mut Rng, count: usize, thorough: bool, ops: &[&str], helpers:
     out
 }
 
+/// the conversions themselves, on numeric-looking strings (compared bit for bit)
+fn conversion_cases(rng: &mut Rng, n: usize, out: &mut Vec<Case>) {
+    for _ in 0..n {
+        let t = match rng.below(4) {
+            0 => rand_radix_literal(rng),
+            1 => rand_long_decimal(rng),
+            _ => rand_string(rng),
+        };
+        let t = if rng.chance(1, 5) { format!("{}{}{}", rng.pick(&[" ", "\t", "\u{a0}", "\u{feff}", "\u{85}", "\n"]), t, rng.pick(&["", " ", "\u{2028}", "\u{85}", "x"])) } else { t };
+        out.push(helper("convert:str_to_number", "str_to_number", vec![Value::String(t.clone())]));
+        out.push(helper("convert:to_number", "to_number", vec![Value::Array(vec![Value::String(t.clone())])]));
+        out.push(helper("convert:parse_float", "parse_float", vec![Value::String(t)]));
+    }
+}
+
 pub fn gen_c07(rng: &mut Rng, count: usize, thorough: bool) -> Vec<Case> {
     let extra = vec![
         (s(" 1 "), int(1)), (s("0x10"), int(16)), (s("inf"), fl(f64::MAX)), (s("\u{85}1"), int(1)), (s("\u{85}"), int(0)),
@@ -657,7 +773,22 @@ pub fn gen_c07(rng: &mut Rng, count: usize, thorough: bool) -> Vec<Case> {
         (json!({}), s("[object Object]")), (json!([1]), int(1)), (json!([[1]]), int(1)), (json!([1, 2]), s("1,2")),
         (fl(1.0), s("1.0")), (fl(1e21), s("1e+21")), (fl(1e21), json!([fl(1e21)])), (json!([fl(0.1)]), s("0.1")),
     ];
-    gen_pairs(rng, count, thorough, &["==", "!="], &["abstract_eq", "abstract_ne"], &extra)
+    let mut out = gen_pairs(rng, count * 4 / 5, thorough, &["==", "!="], &["abstract_eq", "abstract_ne"], &extra);
+    conversion_cases(rng, count / 15, &mut out);
+    // a string against the number it denotes (and its neighbours), through == itself
+    while out.len() < count {
+        let t = if rng.chance(1, 2) { rand_radix_literal(rng) } else { rand_long_decimal(rng) };
+        if let Some(f) = jsonlogic_rs::js_op::str_to_number(&t) {
+            if f.is_finite() {
+                for g in [f, f64::from_bits(f.to_bits().wrapping_add(1)), f64::from_bits(f.to_bits().wrapping_sub(1))] {
+                    if g.is_finite() {
+                        pair_cases(&mut out, &["=="], &["abstract_eq"], &Value::String(t.clone()), &fl(g));
+                    }
+                }
+            }
+        }
+    }
+    out
 }
 
 pub fn gen_c08(rng: &mut Rng, count: usize, thorough: bool) -> Vec<Case> {
@@ -705,6 +836,7 @@ pub fn gen_c09(rng: &mut Rng, count: usize, thorough: bool) -> Vec<Case> {
     }
     out.push(apply("regress", json!({"<": [[10], [9], [91]]}), Value::Null));
     out.push(apply("regress", json!({">=": [3, 2, "low"]}), Value::Null));
+    conversion_cases(rng, count / 20, &mut out);
     out
 }
 
@@ -739,6 +871,7 @@ pub fn gen_c10(rng: &mut Rng, count: usize, _thorough: bool) -> Vec<Case> {
     for (o, a) in regress {
         out.push(apply(&format!("regress:{}", o), op(o, a), Value::Null));
     }
+    conversion_cases(rng, count / 20, &mut out);
     let ops = ["+", "-", "*", "/", "%", "min", "max"];
     while out.len() < count {
         let o = *rng.pick(&ops);
@@ -1044,7 +1177,24 @@ pub fn gen_c14(rng: &mut Rng, count: usize, _thorough: bool) -> Vec<Case> {
     for (r, d) in regress {
         out.push(apply("regress", r, d));
     }
+    for q in ["all", "some", "none"] {
+        for (path, d) in [
+            ("a.b", json!({"a": {"b": [1, 2]}, "a.b": [-1, -2]})), ("", json!({"": [1, 2], "x": 1})), ("", json!([1, 0])), ("a\\.b", json!({"a": {"b": [1]}, "a.b": [0]})),
+            ("0", json!([[1, 2], [0]])), ("xs.1", json!({"xs": [[0], [1, 2]], "xs.1": [0]})), ("-1", json!([[0], [3]])), ("k.", json!({"k": [1], "k.": [0]})),
+        ] {
+            out.push(apply("path-collection", op(q, vec![var(path), op(">", vec![var(""), int(0)])]), d.clone()));
+            out.push(apply("path-collection", op(q, vec![op("merge", vec![var(path)]), op(">", vec![var(""), int(0)])]), d));
+        }
+    }
     while out.len() < count {
+        if rng.chance(1, 5) {
+            // the collection is found by a path into a random tree
+            let d = rand_tree(rng, 3);
+            let p = rand_path(rng, &d);
+            let q = *rng.pick(&["all", "some", "none"]);
+            out.push(apply("tree-collection", op(q, vec![var(&p), op("!!", vec![var("")])]), d));
+            continue;
+        }
         let (coll, outer) = collection(rng);
         let coll = match rng.below(8) {
             0 => s(*rng.pick(&["abc", "héllo", "日本語", "", "a😀b", "aaa"])),
@@ -1212,6 +1362,15 @@ pub fn gen_c17_pool(rng: &mut Rng, n: usize) -> Vec<(Value, Value)> {
         deep = op("!", vec![deep]);
     }
     pool.push((deep, Value::Null));
+    // rules deeper than any text interface delivers (built as values): too-deep or failing
+    // evaluations must not leave anything behind for the next call
+    for (levels, leaf) in [(140usize, json!(1)), (140, json!({"-": ["abc", 1]})), (127, json!(1)), (200, json!({"var": "temp"}))] {
+        let mut r = leaf;
+        for _ in 0..levels {
+            r = op("+", vec![r, int(0)]);
+        }
+        pool.push((r, d1.clone()));
+    }
     while pool.len() < n {
         let dd = 1 + rng.below(3);
         let mut r = rand_rule(rng, dd);
